@@ -313,6 +313,11 @@ int vrt_state_seen(unsigned long key, int remaining)
 
 	if (!vrt_seen_tab || g_noprune)
 		return 0;
+	/* the remaining budgets are part of the state: equal program states with different budgets
+	 * left have different sets of explored futures */
+	key = vrt_mix(key, (unsigned long)g_remain[C_P] | ((unsigned long)g_remain[C_D] << 8) |
+		      ((unsigned long)g_remain[C_F] << 16) | ((unsigned long)g_remain[C_S] << 24) |
+		      ((unsigned long)g_remain[C_Y] << 32));
 	if (!key)
 		key = 1;
 	h = (key * 0x9e3779b97f4a7c15UL) >> 42;	/* 22 bits */
